@@ -3,9 +3,9 @@ package checks
 import (
 	"encoding/json"
 	"fmt"
-	"strings"
 	"os"
 	"path/filepath"
+	"strings"
 
 	"verif/core"
 	"verif/gen"
